@@ -36,11 +36,27 @@ CHECKS = {
          "all_combinations of the sums manager proved sound, complete and duplicate-free (contents manager: correspondence and direct evaluation, PARTIAL).", TB),
  "C20": ("proof", "Lean 4 theorems value_eq_doc, value_perm, value_sorted_fast, weighted_def + correspondence on direct calls",
          "Full: each objective's value equals its documented function for every sum vector, is order-independent, and the sorted fast path agrees whenever the sums are sorted; strict correspondence of value_to_minimize on lists, tuples and arrays.", TB),
+ "C11": ("proof", "Lean 4 theorems cg_cut_safe, cg_cut_monotone, cg_cut_eventually, cg_optimal, cbldm_isPartition/card/optimal, ckkGen_valid/strict + correspondence at EVERY cut under a counting clock",
+         "Safety of interruption and monotonicity proved for every configuration and every clock reading; optimality without limit proved (cg_optimal, cbldm_optimal); CKK generator validity and strict improvement proved "
+         "(its last yield being optimal is certified against the verified oracle; theorem in progress). Every cut of every run of the scope is executed on the real code with a deterministic clock and compared strictly with the model. Known finding KF5 (heuristic 3).", TB),
+ "C14": ("proof", "Lean 4 theorems *_eq_spec, greedy_is_lpt_run, lpt_runs_same_sums, bestfit_runs_same_sums (models = textbook specifications) + correspondence + independent transcription",
+         "Full: round-robin, first-fit (+decreasing), the three covers are proved equal to direct textbook specifications (bins equal); greedy and best-fit are proved to be LPT / best-fit runs and all such runs have the same multiset of sums.", TB),
+ "C15": ("other", "definitional purity of the Lean model + bins-manager frame theorems (unwritten_unchanged, args_unmodified) + refinement testing over call histories",
+         "The model is a total function, so purity is definitional there; the heap-level frame theorems show an array changes only through operations applied to it. For the code the property is decided by "
+         "history-quantified differential runs (random call sequences in one interpreter vs the model and vs fresh processes; deep comparison of every argument). Interpreter-level state cannot be exhibited by the model: PARTIAL.", TB),
+ "C16": ("proof", "Lean 4 refinement theorem heap_refines_pure (reference-level heap model with aliasing refines the pure bins model under the hand-over discipline) + op_consistent, sortAsc_sorted_perm, copy_independent, args_unmodified + correspondence on operation sequences",
+         "Full: for every finite disciplined operation sequence the heap model (numpy views, shared inner lists) agrees with the immutable specification on every live array; every array stays consistent; copies are independent in both directions. "
+         "The heap model is compared with the real managers on every array (live or handed over) after every operation of bounded-exhaustive and random sequences.", TB),
+ "C18": ("proof", "Lean 4 theorems *_perm_sums, *_scale, isOptimal_perm/scale/zeros, optValue_* + metamorphic evaluation + agreement of exact solvers",
+         "Permutation invariance and scaling proved for every heuristic (multifit in exact rationals); the specification optimum is proved invariant under permutation and zero items and linear under scaling, hence so is every algorithm with an optimality theorem "
+         "(DP, complete greedy, CBLDM); CKK/SNP/RNP/ILP by certified evaluation (PARTIAL). Exact solvers are compared with each other on 11-16 items.", TB),
+ "C19": ("proof", "Lean 4 theorems ff/bf(±decreasing)_error_iff, bc_error_iff, decision-table model of cbldm's validation + correspondence on the malformed stream",
+         "Full for the packers: the model returns ValueError iff some item exceeds the bin size, whatever its position or multiplicity (format independence by naturality); cbldm's validation and the sums-only manager's refusal are modelled as decision logic and compared on every single-invalid-argument combination.", TB),
  "C12": ("proof", "Lean 4 theorems cbldm_isPartition, cbldm_card, optBalanced_spec (verified oracle) + correspondence",
          "Validity and the cardinality bound proved for every input, bound and interruption point; optimality certified against the verified balanced oracle (optimality theorem stated-only: PARTIAL).", TB),
 }
 
-NOT_YET = {k: 'check under construction in this session (suite not yet registered); see DESIGN.md section 8' for k in ['C11','C14','C15','C16','C17','C18','C19']}
+NOT_YET = {k: 'check under construction in this session (suite not yet registered); see DESIGN.md section 8' for k in ['C17']}
 
 
 def main():
